@@ -1,9 +1,12 @@
-(* The announcement cache as the process really keeps it (property C04): maybeAddFp hashes
+(* The announcement cache as the process really keeps it (property C04): fpCacheKey hashes
    (day, fingerprint, type) to a uint64 with CH64, numbercache turns that number into the byte key
    of fastcache with the serializer it was constructed with (writer/plugin/qryn_writer_db.go:
-   the 8 bytes of the value, little endian). SeriesIndex.v keeps the cache as a set of triples; this
-   file states what makes that abstraction right: [k_parse] is the parser over a cache of byte keys,
-   for an arbitrary key hash [key] and serializer [ser].  Executable definitions only. *)
+   the 8 bytes of the value, little endian). While a request is parsed the cache is only read (Has);
+   the rows the request has emitted itself are remembered as triples (parserDoer.announced); ConfirmSeries
+   writes the byte keys of the rows after the inserts. SeriesIndex.v keeps the cache as a set of triples
+   and threads one set through the parse; this file states what makes that abstraction right: [k_parse]
+   is the parser over a cache of byte keys, for an arbitrary key hash [key] and serializer [ser].
+   Executable definitions only. *)
 From Coq Require Import List ZArith Bool String Ascii.
 From Qryn Require Import model.GoQuote model.SeriesIndex.
 Import ListNotations.
@@ -27,16 +30,19 @@ Section KEYED.
   Variable ser : Z -> string.       (* the serializer handed to numbercache.NewCache *)
   Definition ck (x : row) : string := ser (key x).
   Definition kmem (x : row) (c : list string) : bool := existsb (String.eqb (ck x)) c.
-  Definition k_announce_type (d fp : Z) (acc : list string * list row) (t : stype) : list string * list row :=
-    let '(c, rows) := acc in
+  (* acc = (triples emitted by this request, rows); c = the byte keys in the shared cache, read only *)
+  Definition k_announce_type (c : list string) (d fp : Z) (acc : list row * list row) (t : stype) : list row * list row :=
+    let '(loc, rows) := acc in
     let x := (d, fp, tcode t) in
-    if kmem x c then (c, rows) else (ck x :: c, rows ++ [x]).
-  Definition k_announce (fp : Z) (tps : list stype) (acc : list string * list row) (d : Z) :=
-    fold_left (k_announce_type d fp) tps acc.
-  Definition k_on_entries (acc : list string * list row) (s : stream) :=
-    fold_left (k_announce (s_fp s) (types_of (s_entries s))) (days_of (s_entries s)) acc.
-  Definition k_parse (c : list string) (ss : list stream) : list string * list row :=
-    fold_left k_on_entries ss (c, []).
+    if mem_row x loc || kmem x c then (loc, rows) else (x :: loc, rows ++ [x]).
+  Definition k_announce (c : list string) (fp : Z) (tps : list stype) (acc : list row * list row) (d : Z) :=
+    fold_left (k_announce_type c d fp) tps acc.
+  Definition k_on_entries (c : list string) (acc : list row * list row) (s : stream) :=
+    fold_left (k_announce c (s_fp s) (types_of (s_entries s))) (days_of (s_entries s)) acc.
+  Definition k_parse (c : list string) (ss : list stream) : list row * list row :=
+    fold_left (k_on_entries c) ss ([], []).
+  (* ConfirmSeries: CheckAndSet of the key of every row *)
+  Definition k_confirm (c : list string) (rows : list row) : list string := map ck rows ++ c.
 End KEYED.
 
 (* ------------------------------------------------------------------ correspondence cases: the production serializer *)
